@@ -306,10 +306,19 @@ def time_case(ctx, env, case, lines, checks):
         return
     ctx.count('time-S-positive')
     brk = {ts, te}
+    tol_norm = 1e-6
     if p['kind'] == 'gauss':
         s = float(prof.sigma_t)
         t0 = 0.5 * (ts + te)
         brk |= {t0 + 0.5 * j * s for j in range(-17, 18)}
+        # S is a sum of differences of erf values of size c1 = sqrt(pi/2) sigma each: when only a far tail of
+        # the gaussian is on-time the subtraction cancels (rounding, outside the real-number property);
+        # the tolerance follows the conditioning  (terms * 2 c1) / S
+        n_terms = sum(1 for (l, u) in ivs if ts < u and l <= te)
+        cond = (n_terms + 1) * 2.0 * math.sqrt(math.pi / 2) * abs(s) / S_impl
+        tol_norm += 1e-14 * cond
+        if cond > 1e8:
+            ctx.count('time-S-ill-conditioned')
     xs, ws = quad_nodes(ivs, brk)
     if len(xs) == 0:
         do_update()
@@ -320,7 +329,7 @@ def time_case(ctx, env, case, lines, checks):
         if not np.all(qv >= 0) or not all(v >= 0 for v in (pd_s if name[0] == 'S' else pd_b).tolist()):
             ctx.violation(name + '.get_pd', 'negative-density', 'a negative or NaN density value with S > 0',
                           case=cdesc, impl=repr(qv[:5].tolist()), predicate='pd >= 0')
-        if not abs(total - 1.0) <= 1e-6:
+        if not abs(total - 1.0) <= tol_norm:
             ctx.violation(name + '.get_pd', 'not-normalised',
                           f'sum over on-time intervals of the quadrature of get_pd = {total!r}',
                           case=cdesc, impl=total, predicate='sum_I int_I pd = 1 (Gauss-Legendre, pieces cut at profile/interval edges)')
